@@ -66,6 +66,26 @@ def _attr(n):
     return 1.0 + ((i + j) % 3) + 0.5 * ((i * j) % 2)
 
 
+def NS_UPPER(n, W):
+    """The asymmetric part that goes with the link values W: 1 where the ORIGINAL number of the row is smaller
+    than that of the column.  W is fixed by the original numbers, so the original number of a node is
+    recovered from W's own pattern: the caller passes it in W.orig (set in run_case)."""
+    orig = getattr(W, "orig", None)
+    if orig is None:
+        orig = np.arange(n)
+    return (orig[:, None] < orig[None, :]).astype(float)
+
+
+class _Tagged(np.ndarray):
+    """ndarray that carries the original node numbers of its rows (renumbered with it)."""
+
+
+def _tag(W, orig):
+    t = np.asarray(W).view(_Tagged)
+    t.orig = np.asarray(orig)
+    return t
+
+
 def _more_calls(net, lat, lon, W, plain_names):
     """The same network as GeoNetwork on the given coordinates, as ResNetwork with the given link values as
     resistances (connected undirected graphs), and with the link values as link attribute: every argument-free
@@ -105,6 +125,15 @@ def _more_calls(net, lat, lon, W, plain_names):
                    "local_admittive_clustering", "global_admittive_clustering", "average_effective_resistance",
                    "diameter_effective_resistance", "get_admittance"):
             calls.append(("R." + nm, getattr(rnet, nm)))
+        # ... and with NON-SYMMETRIC resistances (R_ij = R_ji + 1/2 for i < j in the ORIGINAL numbering; the admittance
+        # and the Laplacian are documented as "possibly non-symmetric"): the global measures and the pairwise
+        # effective resistances are renumbered like everything else
+        ns = (W + 0.5 * (NS_UPPER(n, W))) * A
+        rns = ResNetwork(ns.astype(float), silence_level=3)
+        calls.append(("RN.effective_resistance", lambda: np.array(
+            [[rns.effective_resistance(a, b) for b in range(n)] for a in range(n)])))
+        for nm in ("average_effective_resistance", "diameter_effective_resistance", "admittive_degree"):
+            calls.append(("RN." + nm, getattr(rns, nm)))
     # second pass on the same objects: by now every store / memo of the first pass is filled (a per-node answer
     # must not depend on what was asked before, in either numbering)
     calls += [(label + "@again", thunk) for label, thunk in calls
@@ -128,7 +157,7 @@ def run_case(c):
     lat, lon = _coords(n)
     W = _attr(n)
     rec["obs0"] = netcommon.observe_all(net0, names, calls=_calls(net0, src, tgt) + _inter_calls(net0, g1, g2)
-                                        + _more_calls(net0, lat, lon, W, names))
+                                        + _more_calls(net0, lat, lon, _tag(W, np.arange(n)), names))
     net1 = net0.permuted_copy(perm)
     rec["permuted"] = {"A": enc.ints(net1.adjacency), "w": enc.ints(net1.node_weights)}
     # node lists are renumbered with the network and presented in another order
@@ -137,7 +166,8 @@ def run_case(c):
     # ... and, for the list-indexed measures of InteractingNetworks, in the same order
     rec["obs1"] = netcommon.observe_all(net1, names, calls=_calls(net1, src1, tgt1) +
                                         _inter_calls(net1, [inv[j] for j in g1], [inv[j] for j in g2]) +
-                                        _more_calls(net1, lat[perm], lon[perm], W[np.ix_(perm, perm)], names))
+                                        _more_calls(net1, lat[perm], lon[perm],
+                                                    _tag(W[np.ix_(perm, perm)], np.asarray(perm)), names))
     return rec
 
 
